@@ -43,6 +43,7 @@ import (
 	"regexp"
 	"sort"
 	"strings"
+	"time"
 )
 
 // Entry registers one subject program.
@@ -209,7 +210,35 @@ type Result struct {
 	Logs     []string // C16: distinct deferred-run logs ("3,1" = D(3) ran first), "!p" suffix when the run panicked
 }
 
+// TimeoutMs > 0 runs every execution in its own goroutine and abandons it after the timeout (std calls may block).
+var TimeoutMs = 0
+
 func runOnce(e Entry, prefix []bool) (n int, panicked bool) {
+	if TimeoutMs <= 0 {
+		return runOnce1(e, prefix)
+	}
+	type res struct {
+		n int
+		p bool
+	}
+	ch := make(chan res, 1)
+	go func() {
+		n, p := runOnce1(e, prefix)
+		ch <- res{n, p}
+	}()
+	select {
+	case r := <-ch:
+		return r.n, r.p
+	case <-time.After(time.Duration(TimeoutMs) * time.Millisecond):
+		Hung++
+		return 0, true
+	}
+}
+
+// Hung counts abandoned executions.
+var Hung = 0
+
+func runOnce1(e Entry, prefix []bool) (n int, panicked bool) {
 	vv = prefix
 	pos = 0
 	valid = map[string]bool{}
